@@ -207,6 +207,11 @@ def _write(detector, plan, tag, i, shape):
             )
         elif bucket in ("pixel", "signal", "image", "phase"):
             getattr(detector, bucket).array = _value_array(shape, v, dt)
+        elif bucket == "photon_iadd":  # in-place update, as the library's illumination / load_image models do
+            detector.photon += _value_array(shape, v, "float64")
+        elif bucket in ("pixel_iadd", "signal_iadd"):
+            arr = getattr(detector, bucket.split("_")[0]).array
+            arr += _value_array(shape, v, "float64").astype(arr.dtype)
         elif bucket == "pixel_add":
             detector.pixel.array = detector.pixel.array + _value_array(shape, v, dt)
         elif bucket == "scene":
